@@ -304,8 +304,26 @@ def op_tag(p, op, descr) -> str:
                             walk(getattr(s, attr))
 
             walk(p._loopir_proc.body)
+            passed = []
+
+            def calls(ss):
+                for s in ss:
+                    if isinstance(s, LoopIR.Call):
+                        for a in s.args:
+                            if isinstance(a, (LoopIR.WindowExpr, LoopIR.Read)) and str(a.name) in [buf] + aliased \
+                                    and a.type.is_numeric() and (isinstance(a, LoopIR.WindowExpr) or not a.idx):
+                                passed.append(str(a.name))
+                    for attr in ("body", "orelse"):
+                        if hasattr(s, attr):
+                            calls(getattr(s, attr))
+
+            calls(p._loopir_proc.body)
+            tag = ""
             if aliased:
-                return ":staged-buffer-has-window-alias"
+                tag += ":staged-buffer-has-window-alias"
+            if passed:
+                tag += ":staged-buffer-passed-to-call"
+            return tag
     return ""
 
 
